@@ -43,7 +43,8 @@ MANIFEST = dict(
          "level returns what plain Python indexing returns, both roots (C01_spellings_string, C01_spellings_string_list; "
          "first = the same element, a one-element list unwrapped: C01_spellings_first); an index out of range after a walk "
          "along existing nodes is a miss in every spelling on both roots: item access raises IndexError, get/first return "
-         "the default, tree unchanged (C01_out_of_range_miss). "
+         "the default itself - whatever value it is, a one-element list included (fix C04-f) - tree unchanged "
+         "(C01_out_of_range_miss). "
          "(5) tie of the two pure primitives every lookup goes through to the source: on every run harness/translate_py_xp.py "
          "re-translates the Python text of n0eval (index arithmetic: last(), new(), i+j, -k; nested my_split, two loops, "
          "try/except around int()/float()) and of split_name_index (name, [index], conditions with the operator table, quotes, "
